@@ -193,8 +193,9 @@ def run_cli_input(text, options, on_system, in_name='in.pdb', x_name='cg.pdb', t
                   on_written=None):
     """Like run_cli, for an input TEXT: `martinize2 -f <in_name> -x <x_name> -o <top_name> <options>` in a scratch directory
     (extra_files: {name: text} written next to the input, e.g. a Go contact map).  on_system(system) sees the live System
-    just before the real write_gmx_topology runs.  on_written(root) runs after the command returned, still inside the
-    scratch directory (e.g. to read the written files back with the repository's own readers).
+    just before the real write_gmx_topology runs.  on_written(root, call) runs after the command returned, still inside the
+    scratch directory (e.g. to read the written files back with the repository's own readers, or to write the same system a
+    second time: call = {'system', 'args', 'kwargs', 'write'} of the topology-writer call the command made).
     Returns {'rc', 'files', 'captured', 'written', 'argv', 'log'}."""
     root = tempfile.mkdtemp(prefix='c03cli_')
     cwd = os.getcwd()
@@ -216,6 +217,7 @@ def run_cli_input(text, options, on_system, in_name='in.pdb', x_name='cg.pdb', t
 
         def interposed(system, *args, **kwargs):
             captured['value'] = on_system(system)
+            captured['call'] = {'system': system, 'args': args, 'kwargs': kwargs, 'write': real_write}
             return real_write(system, *args, **kwargs)
 
         cli.write_gmx_topology = interposed
@@ -238,7 +240,7 @@ def run_cli_input(text, options, on_system, in_name='in.pdb', x_name='cg.pdb', t
         written = None
         if on_written is not None and rc == 0:
             with contextlib.redirect_stderr(log), contextlib.redirect_stdout(log):
-                written = on_written(root)
+                written = on_written(root, captured.get('call'))
         return {'rc': rc, 'files': files, 'captured': captured.get('value'), 'written': written, 'argv': ' '.join(argv),
                 'log': log.getvalue()[-2000:]}
     finally:
